@@ -24,7 +24,7 @@ Record emsg := {
   m_sig    : option nat;   (* oracle: address ECDSA recovery over the tx's own signing hash yields *)
   m_funded : bool;         (* the balance / fee-cap / gas checks of the other decorators pass *)
   m_exec   : exec_outcome;
-  m_create : bool;         (* contract creation that deploys when it runs to completion *)
+  m_create : bool;         (* contract creation (To == nil); it deploys when it runs to completion *)
   m_touch  : list nat      (* accounts whose state object the execution dirties when it runs to completion:
                               recipient of the value, callee paid by an inner call, selfdestruct beneficiary *)
 }.
@@ -32,6 +32,18 @@ Record emsg := {
 (** the auth account type stored behind an address: EthAccount (what the EVM keeper and the ante handler
     create), BaseAccount (add-genesis-account, accounts created by a bank send), vesting account *)
 Inductive akind := KEth | KBase | KVesting.
+
+(** ApplyEvmMsg, the nonce the sender's state object gets BEFORE the EVM runs: from (is the message a contract
+    creation?, nonce the object holds, msg.Nonce()) *)
+Definition prefn := bool -> N -> N -> N.
+(** as it stands (fix 80f60c9): a creation is reset to msg.Nonce() (evm.Create increments it itself), a call runs
+    with the final nonce msg.Nonce()+1, as in go-ethereum *)
+Definition pre_std : prefn := fun create _ n => if create then n else N.succ n.
+(** before 80f60c9: reset to msg.Nonce() for creations and calls alike *)
+Definition pre_reset_always : prefn := fun _ _ n => n.
+(** variant: the reset of a creation only "undoes one ante increment" (held nonce = msg.Nonce()+1) *)
+Definition pre_reset_if_single_increment : prefn :=
+  fun create cur n => if create then (if N.eqb cur (N.succ n) then n else cur) else N.succ n.
 
 (** the keeper's account loader: nonce of the state object, from the account's type and stored sequence *)
 Definition loader := akind -> N -> N.
@@ -63,6 +75,7 @@ Section WithChain.
   Variable recover : emsg -> option nat.  (* chain-agnostic signature recovery *)
   Variable kinds : nat -> akind.          (* auth account type behind every address *)
   Variable load : loader.                 (* Keeper.GetAccount / getAccountWithoutBalance *)
+  Variable pre : prefn.                   (* ApplyEvmMsg: SetNonce before evm.Create / evm.Call *)
 
   (** gethcore.MakeSigner(cfg, height).Sender: London signer — typed and EIP-155 txs must carry
       this chain's id; unprotected legacy txs fall through to the Homestead rule *)
@@ -144,7 +157,8 @@ Section WithChain.
     match m_exec m, sender_of m with
     | ExecMsgErr, _ | _, None => None
     | out, Some a =>
-        let s1 := upd s a (m_nonce m) in                  (* SetNonce(from, msg.Nonce()) *)
+        (* pre-execution SetNonce on the sender's object (loaded through the keeper) *)
+        let s1 := upd s a (pre (m_create m) (load (kinds a) (s a)) (m_nonce m)) in
         let used := s1 a in                                (* evm.Create: GetNonce(caller) *)
         (* a failed execution is reverted to the snapshot: what it touched is not dirty any more *)
         let dirty := match out with ExecOk => m_touch m | _ => [] end in
